@@ -736,6 +736,18 @@ Definition cache_flat (case : Z * Z * Z * list (Z * bytes * bytes * bytes) * lis
                         (m_init bytes Z) (map (dec_cop pool) ops)) in
   flat_map (fun p => enc_mout (cop_fv (fst p)) (snd p)) (combine ops outs).
 
+(* the bytes fed to md5 for the first call of a case (compared with the bytes
+   the implementation feeds to hashlib.md5) *)
+Definition key_flat (case : Z * Z * Z * list (Z * bytes * bytes * bytes) * list cop)
+  : list Z :=
+  let '(newkey, cpy, cap, pool0, ops) := case in
+  match ops with
+  | (_, c, _) :: _ =>
+      let sg := fst (dec_sig (map dec_atom pool0) c) in
+      if newkey =? 0 then key_old sg else key_new sg
+  | [] => []
+  end.
+
 (* --- F2: hashfile -------------------------------------------------------- *)
 (* content = (content id, size); fresh = content id * 1000 + args code, or an
    exception when the args code is negative *)
